@@ -47,6 +47,10 @@ func (t T) Get() int { host.Tick(); return t.n }`, `t := &T{}; for { t.Inc(); _ 
 	{"pingpong", `func Pong(in, out chan int) { for v := range in { host.Tick(); out <- v + 1 } }`, `in, out := make(chan int), make(chan int); go Pong(in, out); v := 0; for { in <- v; v = <-out; host.Tick() }`, true},
 	{"closure-blocker", `func MkBlocker(c chan int) func() { return func() { for { host.Tick(); <-c } } }`, `b := MkBlocker(make(chan int)); go b(); for { host.Tick() }`, true},
 	{"closure-sender", `func MkSender(c chan int) func() { return func() { for { host.Tick(); c <- 1 } } }`, `b := MkSender(make(chan int)); go b(); for { host.Tick() }`, true},
+	{"stored-closure-blocker", `var BC = make(chan int)
+var StoredB = func() { for { host.Tick(); <-BC } }`, `go StoredB(); for { host.Tick() }`, true},
+	{"stored-closure-sender", `var SC = make(chan int)
+var StoredS = func() { for { host.Tick(); SC <- 1 } }`, `go StoredS(); for { host.Tick() }`, true},
 	{"method-value-go", `type W struct{ c chan int }
 func (w *W) Run() { for { host.Tick(); <-w.c } }`, `w := &W{c: make(chan int)}; f := w.Run; go f(); for { host.Tick() }`, true},
 }
